@@ -1,4 +1,4 @@
-from .exceptions import InternalError, CodeGenError
+from .exceptions import InternalError, CodeGenError, SyntaxError
 from .stmt import Stmt
 
 
@@ -125,6 +125,14 @@ other codegen functions.
 
         gen = self.generator_funcs.get(type(node))
         if not gen:
+            if isinstance(node, Stmt) and \
+               getattr(node, 'loc_start', None) is not None:
+                # a clause that is only meaningful inside another
+                # statement or block (like "x AS INTEGER" outside a
+                # TYPE block) used as a statement on its own
+                raise SyntaxError(
+                    loc=node.loc_start,
+                    msg=f'{node.node_name()} not allowed here')
             raise InternalError(
                 f'Cannot generate code for node: {node}')
         gen(node, code, self)
